@@ -27,7 +27,7 @@ var charOf = func() map[rune]string {
 
 // Patterns maps pattern ids of JV.PatIds to regular expressions with identical RE2 / ECMA-262 meaning.
 var Patterns = map[string]string{"p_a": "^a", "p_b": "b$", "p_ab": "^[ab]*$", "p_2": "^.{2}$",
-	"p_pct": "^[ab%]*$", "p_esc": `^\x61+$`,
+	"p_pct": "^[ab%]*$", "p_esc": `^\x61+$`, "p_lit": "^ab$", "p_sub": "ab",
 	"p_qt": `^"a"$`, "p_cls": `^\w+\s?$`, "p_bt": "^a`b$",
 	"p_tsp": "^a ", "p_lsp": " b$", "p_ws": " ", "p_ttab": "^a\t"}
 
